@@ -52,11 +52,7 @@ def tree_hash():
         h.update(rel.encode())
         with open(os.path.join(REPO, rel), "rb") as f:
             h.update(f.read())
-    for p in _harness_files():
-        h.update(os.path.basename(p).encode())
-        with open(p, "rb") as f:
-            h.update(f.read())
-    h.update(b"build-v7")
+    h.update(b"build-v8")
     return h.hexdigest()[:16]
 
 
@@ -79,10 +75,71 @@ class Build:
         self.srcdir = os.path.join(root, "src-copy")
 
     def harness(self, name):
-        return os.path.join(self.root, "h", name)
+        """Path of the compiled harness/<name>.c (built on demand, keyed by the harness source's hash,
+        linked against this build's copy of the repository sources)."""
+        return _build_harness(self.root, name)
 
     def stubmod(self):
-        return os.path.join(self.root, "h", "stubmod.so")
+        return _build_harness(self.root, "stubmod")
+
+
+def _defs(root):
+    copy = os.path.join(root, "src-copy")
+    return ["-DHAVE_CONFIG_H", "-D" + GUARD, '-DSYSCONFDIR="/nonexistent"',
+            '-DMODULESDIR="%s/mods"' % root, '-DLOGDIR="."', "-I" + copy, "-w"]
+
+
+def _build_harness(root, name):
+    hp = os.path.join(VERIF, "harness", name + ".c")
+    if not os.path.exists(hp):
+        raise BuildError("no such harness source: " + hp)
+    hh = hashlib.sha256()
+    hdir_src = os.path.dirname(hp)
+    with open(hp, "rb") as f:
+        data = f.read()
+    hh.update(data)
+    for n in sorted(os.listdir(hdir_src)):          # headers shared by harnesses
+        if n.endswith(".h"):
+            with open(os.path.join(hdir_src, n), "rb") as f:
+                hh.update(n.encode() + f.read())
+    tag = hh.hexdigest()[:12]
+    hdir = os.path.join(root, "h")
+    os.makedirs(hdir, exist_ok=True)
+    is_so = name == "stubmod" or data.startswith(b"// SHARED")
+    out = os.path.join(hdir, "%s-%s%s" % (name, tag, ".so" if is_so else ""))
+    if os.path.exists(out):
+        return out
+    copy = os.path.join(root, "src-copy")
+    with open(os.path.join(hdir, "lock-" + name), "w") as lk:
+        fcntl.flock(lk, fcntl.LOCK_EX)
+        if os.path.exists(out):
+            return out
+        first = data.split(b"\n", 1)[0].decode(errors="replace")
+        link = []
+        if "LINK:" in first:
+            for w in first.split("LINK:", 1)[1].split():
+                if w != "SOFT_UBSAN":
+                    link.append(os.path.join(copy, w))
+        tmp = out + ".tmp%d" % os.getpid()
+        if is_so:
+            cmd = ["gcc"] + SAN + _defs(root) + ["-shared", "-fPIC", hp] + link + ["-o", tmp]
+        else:
+            cmd = (["gcc"] + SAN + _defs(root) + ["-I" + hdir_src, hp] + link
+                   + ["-rdynamic", "-levent", "-ldl", "-lm", "-lrt", "-o", tmp])
+        p = subprocess.run(cmd, cwd=copy, stdout=subprocess.PIPE, stderr=subprocess.STDOUT, text=True)
+        if p.returncode != 0:
+            raise BuildError("harness build failed: %s\n%s" % (" ".join(cmd), p.stdout[-4000:]))
+        os.replace(tmp, out)
+        # drop older builds of this harness
+        for n in os.listdir(hdir):
+            q = os.path.join(hdir, n)
+            if (n.startswith(name + "-") and q != out and ".tmp" not in n
+                    and time.time() - os.path.getmtime(q) > 1800):
+                try:
+                    os.unlink(q)
+                except OSError:
+                    pass
+    return out
 
 
 def _configure_copy(copy, log):
@@ -106,8 +163,7 @@ def _do_build(root):
             shutil.rmtree(copy)
             shutil.copytree(REPO, copy, ignore=shutil.ignore_patterns(".git", "*.o", "*.lo", "*.la", ".libs"))
             _configure_copy(copy, log)
-        defs = ["-DHAVE_CONFIG_H", "-D" + GUARD, '-DSYSCONFDIR="/nonexistent"',
-                '-DMODULESDIR="%s/mods"' % root, '-DLOGDIR="."', "-I" + copy, "-w"]
+        defs = _defs(root)
         mods = os.path.join(root, "mods")
         hdir = os.path.join(root, "h")
         os.makedirs(mods, exist_ok=True)
@@ -123,27 +179,6 @@ def _do_build(root):
                     "-o", os.path.join(mods, "iauth_xquery.so")])
         jobs.append(["gcc"] + SAN + defs + ["-shared", "-fPIC", os.path.join(copy, "modules", "iauth_class.c"),
                     "-o", os.path.join(mods, "iauth_class.so")])
-        # library harnesses: harness/h_<name>.c, first line may carry "// LINK: <repo-relative .c files>"
-        for hp in _harness_files():
-            base = os.path.basename(hp)
-            if not base.endswith(".c"):
-                continue
-            with open(hp) as f:
-                first = f.readline()
-            name = base[:-2]
-            if base == "stubmod.c":
-                jobs.append(["gcc"] + SAN + defs + ["-shared", "-fPIC", hp, "-o", os.path.join(hdir, "stubmod.so")])
-                continue
-            link = []
-            soft = False
-            if first.startswith("// LINK:"):
-                for w in first[len("// LINK:"):].split():
-                    if w == "SOFT_UBSAN":
-                        soft = True
-                    else:
-                        link.append(os.path.join(copy, w))
-            jobs.append(["gcc"] + (SAN_SOFT if soft else SAN) + defs + ["-I" + os.path.dirname(hp), hp] + link
-                        + ["-rdynamic", "-levent", "-ldl", "-lm", "-lrt", "-o", os.path.join(hdir, name)])
         procs = []
         for j in jobs:
             procs.append((j, subprocess.Popen(j, cwd=copy, stdout=subprocess.PIPE, stderr=subprocess.STDOUT, text=True)))
